@@ -109,7 +109,7 @@ CLAIMED["C14"] = (
 CLAIMED["C06"] = (
     "DESIGN.md section 5, C06",
     "Lean 4 theorems (monoid-homomorphism facts over exact rationals, finite maps for groupby) over a hand-written model of every Aggregation's initial/on_new and of the per-batch expression layer + two-level differential correspondence (Aggregation objects directly; the full streaming DataFrame API) against the model and against pandas on the concatenated prefix",
-    "Proof: for every batch list and every k the k-th emission of sum, count, size, mean, var (two-moment formula = textbook variance, ddof 0/1), std, value_counts and groupby sum/count/size/mean/var/std (column or streaming-series grouper; NaN keys dropped, vanished keys kept) equals the specified pandas aggregation of the concatenation of the first k batches (…_stream_eq_pandas), var raises exactly when the prefix has no row, element-wise expressions, filters, selection and assignment give per batch what pandas gives (expr_/mask_/pipeline_stream_eq_pandas_per_batch) and compose end to end (pipeline_prefix_concat, mean_of_pipeline_eq_pandas). The pre-fix Mean is kept with its witness ([] then [1,2,3]).",
+    "Proof: for every batch list and every k the k-th emission of sum, count, size, mean, var (two-moment formula = textbook variance, ddof 0/1), std, value_counts and groupby sum/count/size/mean/var/std (column or streaming-series grouper; NaN keys dropped, vanished keys kept) equals the specified pandas aggregation of the concatenation of the first k batches (…_stream_eq_pandas) - row-less prefixes included: var is NaN there (var_stream_no_row_is_nan; the ZeroDivisionError of the unrepaired code is gone from the model) -, element-wise expressions, filters, selection and assignment give per batch what pandas gives (expr_/mask_/pipeline_stream_eq_pandas_per_batch) and compose end to end (pipeline_prefix_concat, mean_of_pipeline_eq_pandas). The pre-fix Mean is kept with its witness ([] then [1,2,3]).",
     "Trusted: Lean kernel (+propext, Classical.choice, Quot.sound); the hand-written model; pandas reductions specified by textbook definitions over Option Rat; floating point outside the model (small-integer data, quotients within 1 ulp / 1e-9); the diamond zip of derived streams is C01's diamond_zip.",
 )
 
